@@ -29,9 +29,14 @@ type Monitors struct {
 	prev     *Snap
 	prevDump []string
 	prevOvm  *ovmSnap
+	prevSubs map[int64]*subSnap
+	subReleased map[int64]*big.Int
+	subDirect   map[int64]*big.Int
 }
 
-func NewMonitors() *Monitors { return &Monitors{phStep: -99} }
+func NewMonitors() *Monitors {
+	return &Monitors{phStep: -99, subReleased: map[int64]*big.Int{}, subDirect: map[int64]*big.Int{}}
+}
 
 func attr(ev abci.Event, key string) string {
 	for _, a := range ev.Attributes {
@@ -55,6 +60,11 @@ func (m *Monitors) Check(c *Chain, o Op, res string) []string {
 	var v []string
 	v = append(v, m.c13(c, o, res)...)
 	cur := c.Snapshot()
+	var prevBal map[string]*big.Int
+	if m.prev != nil {
+		prevBal = m.prev.Bal
+	}
+	v = append(v, m.c11(c, o, res, prevBal)...)
 	v = append(v, m.betMonitors(c, o, res, m.prev, cur)...)
 	v = append(v, m.c06(c, o, res)...)
 	v = append(v, m.c14(c, o, res)...)
@@ -364,6 +374,104 @@ func (m *Monitors) c06(c *Chain, o Op, res string) []string {
 		if !kycOK(o.Ky, o.Signer) {
 			v = append(v, "C06 SWAG accepted with identity data that does not approve the bettor")
 		}
+	}
+	return v
+}
+
+// ---- C11 --------------------------------------------------------------------------------------------
+type subSnap struct {
+	id                       int64
+	owner                    string
+	addr                     string
+	dep, spent, wd, lost     *big.Int
+	bal                      *big.Int
+	locks                    map[uint64]*big.Int
+}
+
+func (c *Chain) subSnapshot() map[int64]*subSnap {
+	ctx := c.Ctx()
+	r := map[int64]*subSnap{}
+	for _, sa := range c.App.SubaccountKeeper.GetAllSubaccounts(ctx) {
+		id := c.AccID(sa.Address) - 1000
+		x := &subSnap{id: id, owner: sa.Owner, addr: sa.Address, dep: sa.Balance.DepositedAmount.BigInt(), spent: sa.Balance.SpentAmount.BigInt(),
+			wd: sa.Balance.WithdrawnAmount.BigInt(), lost: sa.Balance.LostAmount.BigInt(), locks: map[uint64]*big.Int{}}
+		x.bal = c.Bal(sdkAcc(sa.Address)).BigInt()
+		for _, lb := range sa.LockedBalances {
+			x.locks[lb.UnlockTS] = lb.Amount.BigInt()
+		}
+		r[id] = x
+	}
+	return r
+}
+
+func (m *Monitors) c11(c *Chain, o Op, res string, prevBal map[string]*big.Int) []string {
+	var v []string
+	cur := c.subSnapshot()
+	prev := m.prevSubs
+	m.prevSubs = cur
+	owners := map[string]bool{}
+	for id, x := range cur {
+		if owners[x.owner] {
+			v = append(v, fmt.Sprintf("C11 owner of subaccount %d has two subaccounts", id))
+		}
+		owners[x.owner] = true
+		for nm, a := range map[string]*big.Int{"deposited": x.dep, "spent": x.spent, "withdrawn": x.wd, "lost": x.lost} {
+			if a.Sign() < 0 {
+				v = append(v, fmt.Sprintf("C11 subaccount %d has negative %s amount %s", id, nm, a))
+			}
+		}
+		avail := new(big.Int).Sub(new(big.Int).Sub(new(big.Int).Sub(x.dep, x.wd), x.spent), x.lost)
+		direct := m.subDirect[id]
+		if direct == nil {
+			direct = big.NewInt(0)
+		}
+		if x.bal.Cmp(avail) < 0 {
+			v = append(v, fmt.Sprintf("C11 subaccount %d holds %s, less than deposited-withdrawn-spent-lost = %s", id, x.bal, avail))
+		} else if x.bal.Cmp(new(big.Int).Add(avail, direct)) != 0 {
+			v = append(v, fmt.Sprintf("C11 subaccount %d holds %s but its ledger gives %s (+%s sent directly)", id, x.bal, avail, direct))
+		}
+	}
+	if prev == nil || res != "ok" {
+		return v
+	}
+	switch o.Kind {
+	case "SWDU":
+		// released by unlocked-balance withdrawals never exceeds what has unlocked
+		for id, x := range cur {
+			if c.AccID(x.owner) != o.Signer {
+				continue
+			}
+			p := prev[id]
+			if p == nil {
+				continue
+			}
+			rel := new(big.Int).Sub(p.bal, x.bal)
+			if m.subReleased[id] == nil {
+				m.subReleased[id] = big.NewInt(0)
+			}
+			m.subReleased[id].Add(m.subReleased[id], rel)
+			unlocked := big.NewInt(0)
+			for ts, a := range x.locks {
+				if int64(ts) < c.Time {
+					unlocked.Add(unlocked, a)
+				}
+			}
+			if m.subReleased[id].Cmp(unlocked) > 0 {
+				v = append(v, fmt.Sprintf("C11 subaccount %d released %s in total by unlocked-balance withdrawals but only %s has unlocked", id, m.subReleased[id], unlocked))
+			}
+			if d := new(big.Int).Sub(c.Bal(sdkAcc(x.owner)).BigInt(), prevBal[x.owner]); d.Cmp(rel) != 0 {
+				v = append(v, fmt.Sprintf("C11 unlocked withdrawal moved %s out of subaccount %d but the owner received %s", rel, id, d))
+			}
+		}
+	case "SWAG":
+		// tokens leaving the subaccount toward the owner must be staked in the same transaction
+		ownerAddr := c.AddrOf(o.Signer)
+		d := new(big.Int).Sub(c.Bal(sdkAcc(ownerAddr)).BigInt(), prevBal[ownerAddr])
+		if d.Sign() > 0 {
+			v = append(v, fmt.Sprintf("C11 wager through the subaccount left %s of its tokens free in the owner account", d))
+		}
+	case "SEND":
+		// direct sends to a subaccount address are allowed and tracked (ledger is then a lower bound)
 	}
 	return v
 }
